@@ -1015,7 +1015,7 @@ theorem toTextPos_units (y mo d h mi s : Int) (hy : 0 ≤ y) (hmo : 0 ≤ mo) (h
           (fld (ofv y) 'Y' ++ (fld (ofv mo) 'M' ++ fld (ofv d) 'D')) ++ ['T'] := by
         rw [e1, e2, e3]; simp [fld]
       rw [this, stripT_T]
-      simp only [desig, tOf, hz, and_self, ↓reduceIte, timePart, List.append_nil, List.append_assoc]
+      simp only [desig, tOf, hz, and_self, ↓reduceIte, timePart, List.append_nil]
     · have hnz : ¬ (h = 0 ∧ mi = 0 ∧ s = 0) := by
         intro ⟨a, b, c⟩
         have e1 := (ofv_none_iff h).mpr a
@@ -1028,7 +1028,7 @@ theorem toTextPos_units (y mo d h mi s : Int) (hy : 0 ≤ y) (hmo : 0 ≤ mo) (h
           (fld (ofv y) 'Y' ++ (fld (ofv mo) 'M' ++ (fld (ofv d) 'D' ++ 'T' :: X))) ++ [u] := by
         have e' : fld (ofv h) 'H' ++ fld (ofv mi) 'M' ++ fld (ofv s) 'S' = X ++ [u] := by
           rw [← e, List.append_assoc]
-        simp only [List.append_assoc, List.singleton_append, List.cons_append, List.nil_append] at e' ⊢
+        simp only [List.append_assoc, List.cons_append, List.nil_append] at e' ⊢
         rw [e']
       rw [this, stripT_other _ _ hu]
       simp only [desig, tOf, hnz, ↓reduceIte, timePart, List.append_nil, List.append_assoc,
@@ -1080,9 +1080,11 @@ theorem dur_eq_refl (m : Mode) (d : Dur) : Dur.eq m d d = true := by
 /-- `n` is a binary64 value below the overflow threshold: `float(str(n)) == n`. -/
 def F64Exact (n : Nat) : Prop := n < f64Over ∧ f64Nat n = n
 
+set_option exponentiation.threshold 2000 in
 theorem f64Exact_of_lt (n : Nat) (h : n < 2 ^ 53) : F64Exact n := by
   refine ⟨?_, ?_⟩
-  · have : (2 : Nat) ^ 53 ≤ f64Over := by unfold f64Over; exact Nat.pow_le_pow_right (by decide) (by decide)
+  · have : (2 : Nat) ^ 53 ≤ f64Over := by
+      unfold f64Over; exact Nat.pow_le_pow_right (n := 2) (Nat.le.step Nat.le.refl) (show 53 ≤ 1023 by decide)
     omega
   · unfold f64Nat; rw [if_pos h]
 
@@ -1184,5 +1186,246 @@ theorem toText_weeks_neg (w : Int) (hw : w < 0) : toText (.weeks w) = '-' :: des
   rw [e, toTextPos_weeks (-w) (by omega)]
   congr 2
   omega
+
+/-! ### the date-time-like spelling -/
+
+theorem parse_alt (m : Mode) (s : List Char) (r : Nat × Nat × Nat × Nat × Nat × Nat)
+    (hasc : ∀ c ∈ s, c.toNat < 128) (hT : 'T' ∈ s) (hf : fnd s = some '-' ∨ fnd s = some 'T')
+    (hhead : ∀ t, s ≠ 'T' :: t) (ha : altParse s = some r) :
+    parse m ('P' :: s) = .ok (.units r.1 r.2.1 r.2.2.1 r.2.2.2.1 r.2.2.2.2.1 r.2.2.2.2.2) := by
+  rw [parse_pos m s (by
+    intro c hc
+    rcases List.mem_cons.mp hc with rfl | hc
+    · decide
+    · exact hasc c hc)]
+  have h0 : durRegex0.search ('P' :: s) = none :=
+    search_none_of_not_accepts _ _ 'T' (by simp [hT]) (by decide) (by decide)
+  have h1 : durRegex1.search ('P' :: s) = none := by
+    apply search1_none _ _ _ _ hhead <;> rcases hf with hf | hf <;> rw [hf] <;> decide
+  have h2 : durRegex2.search ('P' :: s) = none := by
+    apply search2_none; rcases hf with hf | hf <;> rw [hf] <;> decide
+  obtain ⟨y, mo, d, h, mi, sec⟩ := r
+  simp only [parseBody, durRegexes, firstMatch, h0, h1, h2, ↓reduceIte, altPath, ha, mkDur_units]
+
+theorem len2 (l : List Char) (h : l.length = 2) : ∃ a b, l = [a, b] := by
+  match l, h with
+  | [a, b], _ => exact ⟨a, b, rfl⟩
+theorem len3 (l : List Char) (h : l.length = 3) : ∃ a b c, l = [a, b, c] := by
+  match l, h with
+  | [a, b, c], _ => exact ⟨a, b, c, rfl⟩
+theorem len4 (l : List Char) (h : l.length = 4) : ∃ a b c d, l = [a, b, c, d] := by
+  match l, h with
+  | [a, b, c, d], _ => exact ⟨a, b, c, d, rfl⟩
+
+theorem dig_ne (c u : Char) (hc : isDig c = true) (hu : isDig u = false := by decide) : c ≠ u :=
+  dig_ne_of c u hc hu
+
+/-- Extended calendar form `YYYY-MM-DDThh:mm:ss`. -/
+def altXC (yy mm dd hh mi ss : List Char) : List Char :=
+  yy ++ '-' :: (mm ++ '-' :: (dd ++ 'T' :: (hh ++ ':' :: (mi ++ ':' :: ss))))
+
+theorem altParse_XC (yy mm dd hh mi ss : List Char)
+    (h1 : Digs yy) (l1 : yy.length = 4) (h2 : Digs mm) (l2 : mm.length = 2) (h3 : Digs dd) (l3 : dd.length = 2)
+    (h4 : Digs hh) (l4 : hh.length = 2) (h5 : Digs mi) (l5 : mi.length = 2) (h6 : Digs ss) (l6 : ss.length = 2) :
+    altParse (altXC yy mm dd hh mi ss) =
+      some (digitsVal yy, digitsVal mm, digitsVal dd, digitsVal hh, digitsVal mi, digitsVal ss) := by
+  obtain ⟨y1, y2, y3, y4, rfl⟩ := len4 yy l1
+  obtain ⟨m1, m2, rfl⟩ := len2 mm l2
+  obtain ⟨d1, d2, rfl⟩ := len2 dd l3
+  obtain ⟨a1, a2, rfl⟩ := len2 hh l4
+  obtain ⟨b1, b2, rfl⟩ := len2 mi l5
+  obtain ⟨c1, c2, rfl⟩ := len2 ss l6
+  have e1 := h1 y1 (by simp); have e2 := h1 y2 (by simp); have e3 := h1 y3 (by simp); have e4 := h1 y4 (by simp)
+  have f1 := h2 m1 (by simp); have f2 := h2 m2 (by simp)
+  have g1 := h3 d1 (by simp); have g2 := h3 d2 (by simp)
+  have i1 := h4 a1 (by simp); have i2 := h4 a2 (by simp)
+  have j1 := h5 b1 (by simp); have j2 := h5 b2 (by simp)
+  have k1 := h6 c1 (by simp); have k2 := h6 c2 (by simp)
+  simp [altParse, altForm, altXC, takeDigits, expect, sep, *]
+
+
+/-- Basic calendar form `YYYYMMDDThhmmss`. -/
+def altBC (yy mm dd hh mi ss : List Char) : List Char := yy ++ (mm ++ (dd ++ 'T' :: (hh ++ (mi ++ ss))))
+/-- Extended ordinal form `YYYY-DDDThh:mm:ss`. -/
+def altXO (yy ddd hh mi ss : List Char) : List Char :=
+  yy ++ '-' :: (ddd ++ 'T' :: (hh ++ ':' :: (mi ++ ':' :: ss)))
+/-- Basic ordinal form `YYYYDDDThhmmss`. -/
+def altBO (yy ddd hh mi ss : List Char) : List Char := yy ++ (ddd ++ 'T' :: (hh ++ (mi ++ ss)))
+
+theorem altParse_BC (yy mm dd hh mi ss : List Char)
+    (h1 : Digs yy) (l1 : yy.length = 4) (h2 : Digs mm) (l2 : mm.length = 2) (h3 : Digs dd) (l3 : dd.length = 2)
+    (h4 : Digs hh) (l4 : hh.length = 2) (h5 : Digs mi) (l5 : mi.length = 2) (h6 : Digs ss) (l6 : ss.length = 2) :
+    altParse (altBC yy mm dd hh mi ss) =
+      some (digitsVal yy, digitsVal mm, digitsVal dd, digitsVal hh, digitsVal mi, digitsVal ss) := by
+  obtain ⟨y1, y2, y3, y4, rfl⟩ := len4 yy l1
+  obtain ⟨m1, m2, rfl⟩ := len2 mm l2
+  obtain ⟨d1, d2, rfl⟩ := len2 dd l3
+  obtain ⟨a1, a2, rfl⟩ := len2 hh l4
+  obtain ⟨b1, b2, rfl⟩ := len2 mi l5
+  obtain ⟨c1, c2, rfl⟩ := len2 ss l6
+  have e1 := h1 y1 (by simp); have e2 := h1 y2 (by simp); have e3 := h1 y3 (by simp); have e4 := h1 y4 (by simp)
+  have f1 := h2 m1 (by simp); have f2 := h2 m2 (by simp)
+  have g1 := h3 d1 (by simp); have g2 := h3 d2 (by simp)
+  have i1 := h4 a1 (by simp); have i2 := h4 a2 (by simp)
+  have j1 := h5 b1 (by simp); have j2 := h5 b2 (by simp)
+  have k1 := h6 c1 (by simp); have k2 := h6 c2 (by simp)
+  have n1 : m1 ≠ '-' := dig_ne _ _ f1
+  simp [altParse, altForm, altBC, takeDigits, expect, sep, *]
+
+theorem altParse_XO (yy ddd hh mi ss : List Char)
+    (h1 : Digs yy) (l1 : yy.length = 4) (h3 : Digs ddd) (l3 : ddd.length = 3)
+    (h4 : Digs hh) (l4 : hh.length = 2) (h5 : Digs mi) (l5 : mi.length = 2) (h6 : Digs ss) (l6 : ss.length = 2) :
+    altParse (altXO yy ddd hh mi ss) =
+      some (digitsVal yy, 0, digitsVal ddd, digitsVal hh, digitsVal mi, digitsVal ss) := by
+  obtain ⟨y1, y2, y3, y4, rfl⟩ := len4 yy l1
+  obtain ⟨d1, d2, d3, rfl⟩ := len3 ddd l3
+  obtain ⟨a1, a2, rfl⟩ := len2 hh l4
+  obtain ⟨b1, b2, rfl⟩ := len2 mi l5
+  obtain ⟨c1, c2, rfl⟩ := len2 ss l6
+  have e1 := h1 y1 (by simp); have e2 := h1 y2 (by simp); have e3 := h1 y3 (by simp); have e4 := h1 y4 (by simp)
+  have g1 := h3 d1 (by simp); have g2 := h3 d2 (by simp); have g3 := h3 d3 (by simp)
+  have i1 := h4 a1 (by simp); have i2 := h4 a2 (by simp)
+  have j1 := h5 b1 (by simp); have j2 := h5 b2 (by simp)
+  have k1 := h6 c1 (by simp); have k2 := h6 c2 (by simp)
+  have n1 : d3 ≠ '-' := dig_ne _ _ g3
+  simp [altParse, altForm, altXO, takeDigits, expect, sep, digitsVal, *]
+
+theorem altParse_BO (yy ddd hh mi ss : List Char)
+    (h1 : Digs yy) (l1 : yy.length = 4) (h3 : Digs ddd) (l3 : ddd.length = 3)
+    (h4 : Digs hh) (l4 : hh.length = 2) (h5 : Digs mi) (l5 : mi.length = 2) (h6 : Digs ss) (l6 : ss.length = 2) :
+    altParse (altBO yy ddd hh mi ss) =
+      some (digitsVal yy, 0, digitsVal ddd, digitsVal hh, digitsVal mi, digitsVal ss) := by
+  obtain ⟨y1, y2, y3, y4, rfl⟩ := len4 yy l1
+  obtain ⟨d1, d2, d3, rfl⟩ := len3 ddd l3
+  obtain ⟨a1, a2, rfl⟩ := len2 hh l4
+  obtain ⟨b1, b2, rfl⟩ := len2 mi l5
+  obtain ⟨c1, c2, rfl⟩ := len2 ss l6
+  have e1 := h1 y1 (by simp); have e2 := h1 y2 (by simp); have e3 := h1 y3 (by simp); have e4 := h1 y4 (by simp)
+  have g1 := h3 d1 (by simp); have g2 := h3 d2 (by simp); have g3 := h3 d3 (by simp)
+  have i1 := h4 a1 (by simp); have i2 := h4 a2 (by simp)
+  have j1 := h5 b1 (by simp); have j2 := h5 b2 (by simp)
+  have k1 := h6 c1 (by simp); have k2 := h6 c2 (by simp)
+  have n1 : d1 ≠ '-' := dig_ne _ _ g1
+  have n2 : isDig 'T' = false := by decide
+  simp [altParse, altForm, altBO, takeDigits, expect, sep, digitsVal, *]
+
+
+theorem head_of_len_pos (yy rest : List Char) (h : Digs yy) (l : 0 < yy.length) :
+    ∀ t, yy ++ rest ≠ 'T' :: t := by
+  intro t e
+  cases yy with
+  | nil => simp at l
+  | cons a as =>
+    injection e with e1 _
+    have := h.head; rw [e1] at this
+    exact absurd this (by decide)
+
+theorem ascii_append {a b : List Char} (ha : ∀ c ∈ a, c.toNat < 128) (hb : ∀ c ∈ b, c.toNat < 128) :
+    ∀ c ∈ a ++ b, c.toNat < 128 := by
+  intro c hc
+  rcases List.mem_append.mp hc with h | h
+  · exact ha c h
+  · exact hb c h
+theorem ascii_cons {x : Char} {b : List Char} (hx : x.toNat < 128) (hb : ∀ c ∈ b, c.toNat < 128) :
+    ∀ c ∈ x :: b, c.toNat < 128 := by
+  intro c hc
+  rcases List.mem_cons.mp hc with rfl | h
+  · exact hx
+  · exact hb c h
+theorem ascii_digs {a : List Char} (h : Digs a) : ∀ c ∈ a, c.toNat < 128 := fun c hc => dig_ascii c (h c hc)
+
+theorem parse_altXC (m : Mode) (yy mm dd hh mi ss : List Char)
+    (h1 : Digs yy) (l1 : yy.length = 4) (h2 : Digs mm) (l2 : mm.length = 2) (h3 : Digs dd) (l3 : dd.length = 2)
+    (h4 : Digs hh) (l4 : hh.length = 2) (h5 : Digs mi) (l5 : mi.length = 2) (h6 : Digs ss) (l6 : ss.length = 2) :
+    parse m ('P' :: altXC yy mm dd hh mi ss) =
+      .ok (.units (digitsVal yy) (digitsVal mm) (digitsVal dd) (digitsVal hh) (digitsVal mi) (digitsVal ss)) := by
+  refine parse_alt m _ _ ?_ ?_ ?_ ?_ (altParse_XC yy mm dd hh mi ss h1 l1 h2 l2 h3 l3 h4 l4 h5 l5 h6 l6)
+  · exact ascii_append (ascii_digs h1) (ascii_cons (by decide) (ascii_append (ascii_digs h2) (ascii_cons (by decide)
+      (ascii_append (ascii_digs h3) (ascii_cons (by decide) (ascii_append (ascii_digs h4) (ascii_cons (by decide)
+      (ascii_append (ascii_digs h5) (ascii_cons (by decide) (ascii_digs h6))))))))))
+  · simp [altXC]
+  · left; unfold altXC; rw [fnd_digs_append _ _ h1]; exact fnd_cons_nondig _ _ (by decide)
+  · exact head_of_len_pos yy _ h1 (by omega)
+
+theorem parse_altBC (m : Mode) (yy mm dd hh mi ss : List Char)
+    (h1 : Digs yy) (l1 : yy.length = 4) (h2 : Digs mm) (l2 : mm.length = 2) (h3 : Digs dd) (l3 : dd.length = 2)
+    (h4 : Digs hh) (l4 : hh.length = 2) (h5 : Digs mi) (l5 : mi.length = 2) (h6 : Digs ss) (l6 : ss.length = 2) :
+    parse m ('P' :: altBC yy mm dd hh mi ss) =
+      .ok (.units (digitsVal yy) (digitsVal mm) (digitsVal dd) (digitsVal hh) (digitsVal mi) (digitsVal ss)) := by
+  refine parse_alt m _ _ ?_ ?_ ?_ ?_ (altParse_BC yy mm dd hh mi ss h1 l1 h2 l2 h3 l3 h4 l4 h5 l5 h6 l6)
+  · exact ascii_append (ascii_digs h1) (ascii_append (ascii_digs h2) (ascii_append (ascii_digs h3)
+      (ascii_cons (by decide) (ascii_append (ascii_digs h4) (ascii_append (ascii_digs h5) (ascii_digs h6))))))
+  · simp [altBC]
+  · right; unfold altBC
+    rw [fnd_digs_append _ _ h1, fnd_digs_append _ _ h2, fnd_digs_append _ _ h3]
+    exact fnd_cons_nondig _ _ (by decide)
+  · exact head_of_len_pos yy _ h1 (by omega)
+
+theorem parse_altXO (m : Mode) (yy ddd hh mi ss : List Char)
+    (h1 : Digs yy) (l1 : yy.length = 4) (h3 : Digs ddd) (l3 : ddd.length = 3)
+    (h4 : Digs hh) (l4 : hh.length = 2) (h5 : Digs mi) (l5 : mi.length = 2) (h6 : Digs ss) (l6 : ss.length = 2) :
+    parse m ('P' :: altXO yy ddd hh mi ss) =
+      .ok (.units (digitsVal yy) 0 (digitsVal ddd) (digitsVal hh) (digitsVal mi) (digitsVal ss)) := by
+  refine parse_alt m _ _ ?_ ?_ ?_ ?_ (altParse_XO yy ddd hh mi ss h1 l1 h3 l3 h4 l4 h5 l5 h6 l6)
+  · exact ascii_append (ascii_digs h1) (ascii_cons (by decide)
+      (ascii_append (ascii_digs h3) (ascii_cons (by decide) (ascii_append (ascii_digs h4) (ascii_cons (by decide)
+      (ascii_append (ascii_digs h5) (ascii_cons (by decide) (ascii_digs h6))))))))
+  · simp [altXO]
+  · left; unfold altXO; rw [fnd_digs_append _ _ h1]; exact fnd_cons_nondig _ _ (by decide)
+  · exact head_of_len_pos yy _ h1 (by omega)
+
+theorem parse_altBO (m : Mode) (yy ddd hh mi ss : List Char)
+    (h1 : Digs yy) (l1 : yy.length = 4) (h3 : Digs ddd) (l3 : ddd.length = 3)
+    (h4 : Digs hh) (l4 : hh.length = 2) (h5 : Digs mi) (l5 : mi.length = 2) (h6 : Digs ss) (l6 : ss.length = 2) :
+    parse m ('P' :: altBO yy ddd hh mi ss) =
+      .ok (.units (digitsVal yy) 0 (digitsVal ddd) (digitsVal hh) (digitsVal mi) (digitsVal ss)) := by
+  refine parse_alt m _ _ ?_ ?_ ?_ ?_ (altParse_BO yy ddd hh mi ss h1 l1 h3 l3 h4 l4 h5 l5 h6 l6)
+  · exact ascii_append (ascii_digs h1) (ascii_append (ascii_digs h3)
+      (ascii_cons (by decide) (ascii_append (ascii_digs h4) (ascii_append (ascii_digs h5) (ascii_digs h6)))))
+  · simp [altBO]
+  · right; unfold altBO
+    rw [fnd_digs_append _ _ h1, fnd_digs_append _ _ h3]
+    exact fnd_cons_nondig _ _ (by decide)
+  · exact head_of_len_pos yy _ h1 (by omega)
+
+/-! ### fixed-width fields -/
+
+theorem renderW_length (w v : Nat) : (renderW w v).length = w := by
+  induction w with
+  | zero => rfl
+  | succ w ih => simp [renderW, ih]
+
+theorem renderW_digs (w v : Nat) : Digs (renderW w v) := by
+  induction w with
+  | zero => exact Digs.nil
+  | succ w ih => exact Digs.cons (dch_spec _ (Nat.mod_lt _ (by decide))).2 ih
+
+theorem digitsVal_cons (c : Char) (ds : List Char) :
+    digitsVal (c :: ds) = (c.toNat - 48) * 10 ^ ds.length + digitsVal ds := by
+  have gen : ∀ (l : List Char) (a : Nat),
+      l.foldl (fun a c => 10 * a + (c.toNat - 48)) a = a * 10 ^ l.length + digitsVal l := by
+    intro l
+    induction l with
+    | nil => intro a; simp [digitsVal]
+    | cons x xs ih =>
+      intro a
+      simp only [List.foldl_cons, List.length_cons, digitsVal]
+      rw [ih, ih (10 * 0 + (x.toNat - 48)), Nat.pow_succ]
+      simp only [Nat.mul_zero, Nat.zero_add, Nat.add_mul]
+      rw [Nat.mul_comm 10 a, Nat.mul_assoc, Nat.mul_comm 10 (10 ^ xs.length)]
+      omega
+  have := gen ds (10 * 0 + (c.toNat - 48))
+  simp only [digitsVal, List.foldl_cons]
+  rw [this]; simp [digitsVal]
+
+/-- A `w`-digit field reads back as the number (below `10^w`). -/
+theorem digitsVal_renderW (w v : Nat) : digitsVal (renderW w v) = v % 10 ^ w := by
+  induction w with
+  | zero => simp [renderW, digitsVal, Nat.mod_one]
+  | succ w ih =>
+    have hd := (dch_spec (v / 10 ^ w % 10) (Nat.mod_lt _ (by decide))).1
+    rw [renderW, digitsVal_cons, ih, renderW_length, hd]
+    have : 48 + v / 10 ^ w % 10 - 48 = v / 10 ^ w % 10 := by omega
+    rw [this, Nat.pow_succ, Nat.mod_mul, Nat.add_comm, Nat.mul_comm]
 
 end IsoDT.Lemmas.DurText
